@@ -394,6 +394,207 @@ def replay_bindgen(prop, doc, path):
 
 
 # --------------------------------------------------------------------------------------------
+# C17: a C program using the generated wrappers (wrapsim)
+# --------------------------------------------------------------------------------------------
+
+def wrap_case_for(seed, i, tier):
+    r = hdrgen.Rng(seed * 7368787 + i)
+    return {
+        "index": i,
+        "model_seed": seed * 104729 + i,
+        "config": r.below(len(CONFIGS)),
+        "hash_seed": 1 + r.below(1 << 20),
+        "plan_seeds": [r.below(1 << 30) for _ in range(3 if tier == "quick" else 6)],
+    }
+
+
+def eval_wrap_case(case, keep_dir=None):
+    """One evaluation: the real tool on one header model under one hash seed, then one C program
+    per plan. Returns dict(violation, findings, stats)."""
+    import wrapsim
+    model = case["model"] if "model" in case else hdrgen.gen_model(case["model_seed"])
+    header, _ = hdrgen.render(model)
+    config = CONFIGS[case["config"]]
+    d = keep_dir or tempfile.mkdtemp(prefix="cglue-verif-wrapsim-")
+    stats = {"tool_runs": 0, "programs": 0, "slot_calls": 0, "fault.hash_seed": 0}
+    findings = []
+    try:
+        hp = os.path.join(d, "input.h")
+        with open(hp, "w") as f:
+            f.write(header)
+        r = run_tool(d, hp, config, 0, case["hash_seed"])
+        stats["tool_runs"] += 1
+        stats["fault.hash_seed"] += 1
+        if r["rc"] != 0 or r["output"] is None:
+            # C18's business (rejects a supported header); nothing to run here
+            return {"violation": None, "findings": [], "stats": stats, "skipped": "tool failed"}
+        text = r["output"].decode("utf-8", "replace")
+        for m in wrapsim.entries_without_wrapper(model, text):
+            same = [o for o in hdrgen.object_types(model) if o["kind"] == m["kind"] and o["name"] == m["name"]][0]
+            shared = sum(1 for v in same["vtbls"] for f in v["funcs"] if f[0] == m["entry"]) > 1
+            site = "group traits sharing a method name" if (m["kind"] == "group" and shared) else "%s %s" % (m["kind"], m["name"])
+            findings.append({"class": "wrap.no_wrapper", "site": site, "msg": "no wrapper of the processed header invokes entry `%s` of `%s` of %s %s" % (m["entry"], m["field"], m["kind"], m["name"])})
+        plans = case.get("plans") or [wrapsim.gen_plan(model, ps) for ps in case["plan_seeds"]]
+        for pi, plan in enumerate(plans):
+            x = wrapsim.run_driver(d, model, config, plan, r["out_path"], tag=str(pi))
+            stats["programs"] += 1
+            stats["slot_calls"] += x.get("slots", 0)
+            if x["violation"]:
+                return {"violation": x["violation"], "findings": findings, "stats": stats, "plan_index": pi}
+        return {"violation": None, "findings": findings, "stats": stats, "digest": hashlib.sha256(r["output"]).hexdigest()}
+    finally:
+        if keep_dir is None:
+            shutil.rmtree(d, ignore_errors=True)
+
+
+def _wrap_findings_as_violations(r):
+    """Findings that are not in the known-findings file are violations like any other."""
+    known = load_known()
+    out = []
+    for f in r.get("findings", []):
+        if not known_match(known, "C17", f["class"], f["site"]):
+            out.append(f)
+    return out
+
+
+def minimise_wrap_case(case, cls, plan_index):
+    import wrapsim
+    model = case["model"] if "model" in case else hdrgen.gen_model(case["model_seed"])
+    plans = case.get("plans") or [wrapsim.gen_plan(model, ps) for ps in case["plan_seeds"]]
+    cur = dict(case, model=model, plans=[plans[plan_index]] if plan_index is not None else plans[:1])
+    cur.pop("model_seed", None)
+    cur.pop("plan_seeds", None)
+    tries = 0
+
+    def fails(c):
+        nonlocal tries
+        tries += 1
+        try:
+            r = eval_wrap_case(c)
+        except Exception:
+            return False
+        if r["violation"] is not None and r["violation"]["class"] == cls:
+            return True
+        return any(f["class"] == cls for f in _wrap_findings_as_violations(r))
+
+    changed = True
+    while changed and tries < 150:
+        changed = False
+        plan = cur["plans"][0]
+        steps = plan["steps"]
+        for si in range(len(steps) - 1, -1, -1):
+            st = steps[si]
+            gone = {st["obj"]} if st["op"] == "create" else set()
+            if "new_obj" in st:
+                gone.add(st["new_obj"])
+            keep = []
+            for j, s2 in enumerate(steps):
+                if j == si or s2.get("obj") in gone:
+                    if "new_obj" in s2 and j != si:
+                        gone.add(s2["new_obj"])
+                    continue
+                keep.append(s2)
+            if not any(s2["op"] == "create" for s2 in keep):
+                continue
+            cand = dict(cur, plans=[dict(plan, steps=keep)])
+            if fails(cand):
+                cur = cand
+                changed = True
+                break
+        if changed:
+            continue
+        if cur["config"] != 0:
+            cand = dict(cur, config=0)
+            if fails(cand):
+                cur = cand
+                changed = True
+    return cur, tries
+
+
+def phase_wrappers(prop, tier, seed, report):
+    import wrapsim
+    build_shim()
+    build_bindgen()
+    n = 300 if tier == "quick" else 12000
+    t0 = time.time()
+    cases = [wrap_case_for(seed, i, tier) for i in range(n)]
+    with ThreadPoolExecutor(max_workers=WORKERS) as ex:
+        results = list(ex.map(eval_wrap_case, cases))
+    wall = time.time() - t0
+    stats = {}
+    digests = set()
+    shapes = set()
+    viol = []
+    known = load_known()
+    known_seen = set()
+    for c, r in zip(cases, results):
+        for k, v in r["stats"].items():
+            stats[k] = stats.get(k, 0) + v
+        if r.get("digest"):
+            digests.add(r["digest"])
+        m = hdrgen.gen_model(c["model_seed"])
+        shapes.add((len(m["traits"]), len(m["groups"]), len(m["contexts"]), bool(m["no_context"]), c["config"]))
+        if r["violation"]:
+            viol.append((c, r["violation"], r.get("plan_index")))
+        for f in r.get("findings", []):
+            e = known_match(known, prop, f["class"], f["site"])
+            if e:
+                if (f["class"], f["site"]) not in known_seen:
+                    known_seen.add((f["class"], f["site"]))
+                    report["known_findings"].append({"class": f["class"], "site": f["site"]})
+                    log("KNOWN-FINDING: property=%s %s at %s (%s)" % (prop, f["class"], f["site"], e.get("what", "")))
+            else:
+                viol.append((c, f, None))
+    programs = stats.get("programs", 0)
+    report["evaluations"] += programs
+    report["distinct_nontrivial"] += len(digests) * (3 if tier == "quick" else 6)
+    report["jobs"].append({
+        "engine": "wrapsim", "binary": "cglue-bindgen (release, built from /repo); generated wrappers compiled with cc -std=c99 and executed", "header_models": n,
+        "c_programs_run": programs, "vtable_entry_invocations_through_wrappers": stats.get("slot_calls", 0), "wall_s": round(wall, 2),
+        "runs_per_hour": int(programs / wall * 3600) if wall > 0 else 0, "distinct_processed_headers": len(digests),
+        "distinct_model_shapes (traits, groups, contexts, no-context objects, config)": len(shapes),
+        "faults_fired": {"hash_seed": stats.get("fault.hash_seed", 0)},
+    })
+    report["samples"] += [{"engine": "wrapsim", "case": cases[i], "model": hdrgen.describe(hdrgen.gen_model(cases[i]["model_seed"]))} for i in (0, n // 2)]
+    out = []
+    seen = set()
+    for c, v, pi in viol:
+        key = (v["class"], v["site"] if v["class"] == "wrap.no_wrapper" else "")
+        if key in seen:
+            continue
+        seen.add(key)
+        mini, tries = minimise_wrap_case(c, v["class"], pi)
+        final = eval_wrap_case(mini)
+        fv = final["violation"] or (_wrap_findings_as_violations(final) or [None])[0] or v
+        os.makedirs(os.path.join(REPLAYS, prop), exist_ok=True)
+        path = os.path.join(REPLAYS, prop, "wrappers-seed%d-case%d.json" % (seed, c["index"]))
+        doc = {"kind": "wrappers", "property": prop, "tier": tier, "seed": seed, "case": mini, "violation": fv, "minimiser_executions": tries,
+               "original_model": hdrgen.describe(hdrgen.gen_model(c["model_seed"])),
+               "reproduced_in_fresh_process": bool(final["violation"] or _wrap_findings_as_violations(final))}
+        with open(path, "w") as f:
+            json.dump(doc, f, indent=1, sort_keys=True)
+            f.write("\n")
+        out.append({"replay": path, "class": fv["class"], "msg": fv["msg"]})
+    return out
+
+
+def replay_wrappers(prop, doc, path):
+    build_shim()
+    build_bindgen()
+    r = eval_wrap_case(doc["case"])
+    v = r["violation"] or (_wrap_findings_as_violations(r) or [None])[0]
+    if v:
+        log("VIOLATION property=%s replay=%s" % (prop, path))
+        log("#   class=%s site=%s" % (v["class"], v["site"]))
+        log("#   %s" % v["msg"])
+        return 1
+    for f in r.get("findings", []):
+        log("KNOWN-FINDING: property=%s %s at %s" % (prop, f["class"], f["site"]))
+    log("# replay did not fail: the recorded violation (%s) does not occur on this tree" % doc["violation"]["class"])
+    return 0
+
+
+# --------------------------------------------------------------------------------------------
 # C04(a): the macro expander as a process under owned hash seeds and listing permutations
 # --------------------------------------------------------------------------------------------
 
